@@ -384,4 +384,98 @@ example : ∀ p ∈ [(fin (1/2) : Fl), fin 1], p ≠ nan := by
 
 end guards
 
+/-! ## 6. FIRM with infinite forecasts / observations / thresholds (round 5)
+
+`Spec.Firm.overX / underX` evaluate the stated expression (1−α)·scale·1[false alarm] / α·scale·1[miss] in the extended-real
+arithmetic of `Fl`.  They agree with the rational Spec on all finite inputs (both the product and the decision form); WITHOUT
+discounting the regenerated kernel equals them for EVERY forecast, observation and threshold (±∞ included: the penalty or 0,
+NaN only for a NaN operand); with any discount it equals them for an infinite forecast against finite observation and threshold.
+(Discounting with an infinite observation / threshold: `inf·0 = nan` in the product form — compared through the driver only.) -/
+
+theorem overX_fin (product lower : Bool) (D : Disc) (α f o t : Rat) :
+    overX product lower D α (fin f) (fin o) (fin t) = fin (overPenalty lower D α f o t) := by
+  cases D <;> cases lower <;> cases product <;>
+    simp only [overX, anyNan3, isNan_fin, Bool.or_false, Bool.false_eq_true, if_false, if_true, scaleX, falseAlarmX, overPenalty,
+      falseAlarm, scale, sub_fin, mul_fin, min_fin, le_fin, lt_fin, ofBool, Bool.and_eq_true, decide_eq_true_eq] <;>
+    split_ifs <;> simp
+
+theorem underX_fin (product lower : Bool) (D : Disc) (α f o t : Rat) :
+    underX product lower D α (fin f) (fin o) (fin t) = fin (underPenalty lower D α f o t) := by
+  cases D <;> cases lower <;> cases product <;>
+    simp only [underX, anyNan3, isNan_fin, Bool.or_false, Bool.false_eq_true, if_false, if_true, scaleX, missX, underPenalty,
+      miss, scale, sub_fin, mul_fin, min_fin, le_fin, lt_fin, ofBool, Bool.and_eq_true, decide_eq_true_eq] <;>
+    split_ifs <;> simp
+
+/-- no discount, ANY forecast / observation / threshold (±∞, NaN): overforecast penalty = (1−α)·1[false alarm] in `Fl` -/
+theorem over_nodiscount_all (lower : Bool) (α : Rat) (f o t : Fl) :
+    Gen.Firm.over_penalty f o (fin α) t (fin 0) (modeStr lower) = overX true lower .off α f o t := by
+  cases lower <;> cases f <;> cases o <;> cases t <;>
+    simp [Gen.Firm.over_penalty, modeStr, overX, anyNan3, scaleX, falseAlarmX, whereB, ofBool, truthy, isNan, Fl.le, Fl.lt, Fl.beq,
+      Fl.mul, Fl.sub, Fl.add, Fl.neg] <;> (try split_ifs) <;> (try simp) <;> (try ring)
+
+theorem under_nodiscount_all (lower : Bool) (α : Rat) (f o t : Fl) :
+    Gen.Firm.under_penalty f o (fin α) t (fin 0) (modeStr lower) = underX true lower .off α f o t := by
+  cases lower <;> cases f <;> cases o <;> cases t <;>
+    simp [Gen.Firm.under_penalty, modeStr, underX, anyNan3, scaleX, missX, whereB, ofBool, truthy, isNan, Fl.le, Fl.lt, Fl.beq,
+      Fl.mul, Fl.sub, Fl.add, Fl.neg] <;> (try split_ifs) <;> (try simp) <;> (try ring)
+
+/-- a forecast above every category (+∞) with the observation at or below the threshold is a false alarm costing 1 − α;
+    a +∞ threshold ("category cannot occur") costs a finite forecast nothing -/
+theorem infinite_forecast_and_threshold_nodiscount (α o t f : Rat) (h : o ≤ t) :
+    Gen.Firm.over_penalty pinf (fin o) (fin α) (fin t) (fin 0) "lower" = fin (1 - α) ∧
+    Gen.Firm.firm_score (fin f) (fin o) (fin α) pinf (fin 0) "lower" = fin 0 := by
+  constructor
+  · have := over_nodiscount_all true α pinf (fin o) (fin t)
+    simp only [modeStr, if_true] at this
+    rw [this]; simp [overX, anyNan3, isNan, scaleX, falseAlarmX, Fl.le, Fl.lt, h, ofBool]
+  · rw [firm_score_eq_add]
+    have h1 := over_nodiscount_all true α (fin f) (fin o) pinf
+    have h2 := under_nodiscount_all true α (fin f) (fin o) pinf
+    simp only [modeStr, if_true] at h1 h2
+    rw [h1, h2]; simp [overX, underX, anyNan3, isNan, scaleX, falseAlarmX, missX, Fl.le, Fl.lt, ofBool]
+
+example : (1 : Rat) ≤ 2 := by decide
+
+/-- an infinite FORECAST against finite observation and threshold, any discount kind -/
+theorem over_inf_fcst (lower : Bool) (D : Disc) (hD : Disc.ok D) (α o t : Rat) (f : Fl) (hf : f = pinf ∨ f = ninf) :
+    Gen.Firm.over_penalty f (fin o) (fin α) (fin t) (discFl D) (modeStr lower) = overX true lower D α f (fin o) (fin t) := by
+  cases D with
+  | off => exact over_nodiscount_all lower α f _ _
+  | dist d =>
+    have hd := hD d rfl
+    rcases hf with rfl | rfl <;> cases lower <;>
+      simp only [Gen.Firm.over_penalty, discFl, modeStr, overX, anyNan3, scaleX, falseAlarmX, whereB, ofBool, truthy, isNan_fin, beq_fin,
+        le_fin, lt_fin, sub_fin, mul_fin, min_fin, isNan, Fl.le, Fl.lt] <;>
+      simp [hd]
+  | inf =>
+    rcases hf with rfl | rfl <;> cases lower <;>
+      simp only [Gen.Firm.over_penalty, discFl, modeStr, overX, anyNan3, scaleX, falseAlarmX, whereB, ofBool, truthy, isNan_fin, beq_fin,
+        le_fin, lt_fin, sub_fin, mul_fin, min_fin_pinf, isNan, Fl.le, Fl.lt] <;>
+      simp [Fl.beq]
+
+theorem under_inf_fcst (lower : Bool) (D : Disc) (hD : Disc.ok D) (α o t : Rat) (f : Fl) (hf : f = pinf ∨ f = ninf) :
+    Gen.Firm.under_penalty f (fin o) (fin α) (fin t) (discFl D) (modeStr lower) = underX true lower D α f (fin o) (fin t) := by
+  cases D with
+  | off => exact under_nodiscount_all lower α f _ _
+  | dist d =>
+    have hd := hD d rfl
+    rcases hf with rfl | rfl <;> cases lower <;>
+      simp only [Gen.Firm.under_penalty, discFl, modeStr, underX, anyNan3, scaleX, missX, whereB, ofBool, truthy, isNan_fin, beq_fin,
+        le_fin, lt_fin, sub_fin, mul_fin, min_fin, isNan, Fl.le, Fl.lt] <;>
+      simp [hd]
+  | inf =>
+    rcases hf with rfl | rfl <;> cases lower <;>
+      simp only [Gen.Firm.under_penalty, discFl, modeStr, underX, anyNan3, scaleX, missX, whereB, ofBool, truthy, isNan_fin, beq_fin,
+        le_fin, lt_fin, sub_fin, mul_fin, min_fin_pinf, isNan, Fl.le, Fl.lt] <;>
+      simp [Fl.beq]
+
+example : Disc.ok (.dist 2) ∧ ((ninf : Fl) = pinf ∨ (ninf : Fl) = ninf) := ⟨by intro d h; cases h; norm_num, Or.inr rfl⟩
+
+/-- where the product form is undefined although the decision is clear: discounting with an observation of +∞ — no false alarm
+    is possible, the decision form gives 0, the product (−∞)·0 is NaN (and so is the kernel's value) -/
+theorem discount_infinite_obs_product_undefined :
+    overX false true (.dist 1) (1/2) (fin 0) pinf (fin 1) = fin 0 ∧ overX true true (.dist 1) (1/2) (fin 0) pinf (fin 1) = nan ∧
+    Gen.Firm.over_penalty (fin 0) pinf (fin (1/2)) (fin 1) (fin 1) "lower" = nan := by
+  refine ⟨?_, ?_, ?_⟩ <;> decide +kernel
+
 end SV.Props.C12
